@@ -368,6 +368,8 @@ def c18_shapes(tier):
             if tier == 'quick' and nargs == 3 and display not in (0, 3, 4, 8):
                 continue
             shapes.append(('hx_usage', [nargs, display], 'c18/usage/args%d/hidden%d/deprecated%d/%s' % (nargs, display & 1, (display >> 1) & 1, ('all', 'short', 'long')[display >> 2])))
+    for display in range(4):
+        shapes.append(('hx_usage_long', [display, 0], 'c18/usage-two-line/hidden%d/deprecated%d' % (display & 1, (display >> 1) & 1)))
     for k in range(6):
         shapes.append(('hx_help_arg', [k, 0], 'c18/help-arg/%d' % k))
     return shapes
